@@ -76,12 +76,34 @@ func runC06(c *Ctx, r *Report, tier string) {
 		r.Fail("WALK", fname, "walk loop over *Command", "", "no loop carrying a *Command variable found in checkRequired")
 	} else {
 		t := c.term(walkPhi)
+		tWalk := t
+		if t != "phi{Command.Active(phi↺) | Parser.Command(P1)}" && c.actsFor(walkPhi.Parent(), cr) {
+			// the root command handed in by the caller instead of the parser: the walk starts at a *Command parameter
+			// that every caller sets to its parser's own command
+			for k, e := range walkPhi.Edges {
+				p, isP := c.resolve(e).(*ssa.Parameter)
+				if !isP || p.Parent() != cr || typeName(p.Type()) != "Command" || len(walkPhi.Edges) != 2 || !strings.HasPrefix(c.term(walkPhi.Edges[1-k]), "Command.Active(") {
+					continue
+				}
+				sites, _ := c.callersOf(cr)
+				all := len(sites) > 0
+				for _, cs := range sites {
+					arg := c.argNamed(cs.Call, p.Name())
+					if arg == nil || !strings.HasPrefix(c.term(arg), "Parser.Command(") {
+						all = false
+					}
+				}
+				if all {
+					t = "phi{Command.Active(phi↺) | Parser.Command(P1)}"
+				}
+			}
+		}
 		r.Check(t == "phi{Command.Active(phi↺) | Parser.Command(P1)}", "WALK", fname, "walk variable", c.ipos(walkPhi), "PROV = {Parser.Command(parser), Command.Active(itself)}", "walk variable has provenance "+t)
 		okExit := true
 		var why string
 		for _, e := range walkLoop.exits() {
 			l, ok := c.edgeLit(e.B, e.I)
-			if e.B != walkLoop.Header || !ok || l.Term != "nonnil("+t+")" || l.Pos {
+			if e.B != walkLoop.Header || !ok || l.Term != "nonnil("+tWalk+")" || l.Pos {
 				okExit = false
 				why = fmt.Sprintf("loop can be left from b%d on %v", e.B.Index, l)
 			}
@@ -177,6 +199,35 @@ func runC06(c *Ctx, r *Report, tier string) {
 		}
 	}
 	rets := returnsOf(cr)
+	// the error handed back instead of stored (its sole caller then stores it): the failing returns are the
+	// failure sites
+	returnsErr := false
+	if len(stores) == 0 {
+		allStored := true
+		sites, _ := c.callersOf(cr)
+		for _, cs := range sites {
+			v := cs.Call.Value()
+			stored := false
+			if v != nil && v.Referrers() != nil {
+				for _, s := range c.storesTo(errField) {
+					if s.Fn == cs.Fn && strings.HasPrefix(c.term(s.Store.Val), "call:(*parseState).checkRequired(") {
+						stored = true
+					}
+				}
+			}
+			if !stored {
+				allStored = false
+			}
+		}
+		if allStored && len(sites) > 0 {
+			for _, ret := range rets {
+				if !isConstNil(c.resolve(ret.Results[0])) {
+					stores = append(stores, ret)
+				}
+			}
+			returnsErr = len(stores) > 0
+		}
+	}
 	var posStore, optStore ssa.Instruction
 	for _, st := range stores {
 		// the positional failure is the one reachable only when the missing list is empty
@@ -380,6 +431,10 @@ func runC06(c *Ctx, r *Report, tier string) {
 		te := c.term(e)
 		okT := te == "parseState.err(P0)"
 		_, okM := c.MustPass(cr, isInstr(ret), c.isStoreTo(errField), nil, nil)
+		if returnsErr {
+			// handed back to the caller, which stores it (established above)
+			okT, okM = strings.HasPrefix(te, "call:newError(ErrRequired, "), true
+		}
 		r.Check(okT && okM, "RESULT", fname, "failing return", c.ipos(ret), "returns parseState.err after storing it", fmt.Sprintf("returns %s (store precedes: %v)", trunc(te, 80), okM))
 	}
 	if nFail != 2 {
